@@ -124,7 +124,7 @@ CONFIG = {
                  "every target at every quiescent point); Publish pending exactly while a member is neither delivered nor cancelled and the publish ctx is live; nothing after Unsubscribe; "
                  "duplicate Subscribe / unmatched Unsubscribe panic and leave later deliveries unchanged; no goroutine left. non-trivial = a publish with |E|>=3 where a context-guarded member is "
                  "cancelled while others are pending and a later delivery follows, or a nil-valued publish with |E|>=1; distinct = hash of the op trace."),
-        "jobs": [{"name": "notifier", "test": "TestC15Notifier", "checks": {"quick": 8000, "thorough": 240000}, "shards": {"quick": 8, "thorough": 16}, "env": {"VKIT_PROFILE": "C15"}}],
+        "jobs": [{"name": "notifier", "test": "TestC15Notifier", "checks": {"quick": 8000, "thorough": 1000000}, "shards": {"quick": 8, "thorough": 16}, "env": {"VKIT_PROFILE": "C15"}}],
     },
     "C16": {
         "rule": ("rapid engine over CombineContext / ConflatedContext / ChainAfterFunc in a synctest bubble: 0-5 input contexts each carrying a distinct value (std cancel, deadline in virtual "
@@ -135,7 +135,7 @@ CONFIG = {
                  "and cancel not called, only the first input's values, panics on zero inputs; ChainAfterFunc's function called exactly once iff either context was cancelled, never twice; no "
                  "goroutine left after teardown. non-trivial = >=3 inputs with >=1 pre-cancelled and a step cancelling >=2 at once, or both contexts of a chain cancelled in the same step; "
                  "distinct = hash of the case."),
-        "jobs": [{"name": "context", "test": "TestC16Context", "checks": {"quick": 24000, "thorough": 1200000}, "shards": {"quick": 8, "thorough": 16}, "env": {"VKIT_PROFILE": "C16"}}],
+        "jobs": [{"name": "context", "test": "TestC16Context", "checks": {"quick": 24000, "thorough": 8000000}, "shards": {"quick": 8, "thorough": 16}, "env": {"VKIT_PROFILE": "C16"}}],
     },
     "C17": {
         "rule": ("rapid engine over bigbuff.Worker in a synctest bubble: stepper rules do (launched Do), done(holder), exit(instance gate: the worker function returns after it saw stop), race steps "
@@ -143,7 +143,7 @@ CONFIG = {
                  "stamps start / stop-seen / exit on a logical clock. Oracle: instances never overlap, exactly one running instance with an open stop channel while anybody holds it, stop closed only "
                  "after every outstanding done was called, a Do arriving while an instance stops waits for its exit and gets a fresh instance, every instance stopped once unheld, no goroutine left. "
                  "non-trivial = >=2 instances and (last done racing a new Do, or a Do while the instance is stopping); distinct = hash of the case."),
-        "jobs": [{"name": "worker", "test": "TestC17Worker", "steps": 30, "checks": {"quick": 16000, "thorough": 500000}, "shards": {"quick": 8, "thorough": 16}, "env": {"VKIT_PROFILE": "C17"}}],
+        "jobs": [{"name": "worker", "test": "TestC17Worker", "steps": 30, "checks": {"quick": 16000, "thorough": 4000000}, "shards": {"quick": 8, "thorough": 16}, "env": {"VKIT_PROFILE": "C17"}}],
     },
     "C20": {
         "rule": ("rapid stepper over LinearAttempt in a synctest bubble (virtual time): count 1-6, rate in {1ns,1ms,1s}, context cancellable/deadline/Err-only/pre-cancelled/background, "
@@ -151,7 +151,7 @@ CONFIG = {
                  "call, after close; invalid inputs must panic. Oracle: first value immediately (len==1 on return, closed+empty if pre-cancelled), <= count values, exact non-decreasing tick "
                  "timestamps, <=1 buffered at every quiescent point, closed after the count-th value or at the first quiescent point after cancellation, <=1 tick forwarded after cancel, "
                  "producer goroutine gone (leak oracle). non-trivial = count>=3, cancellation while the producer is alive and a value still buffered at that instant; distinct = hash of the case."),
-        "jobs": [{"name": "attempt", "test": "TestC20Attempt", "steps": 12, "checks": {"quick": 16000, "thorough": 400000}, "shards": {"quick": 8, "thorough": 16}, "env": {"VKIT_PROFILE": "C20"}}],
+        "jobs": [{"name": "attempt", "test": "TestC20Attempt", "steps": 12, "checks": {"quick": 16000, "thorough": 2400000}, "shards": {"quick": 8, "thorough": 16}, "env": {"VKIT_PROFILE": "C20"}}],
     },
     "C14": {
         "rule": ("rapid stepper over bigbuff.Workers in a synctest bubble: rules call(count 1-4, gated task returning a unique value/error; also via Wrap), release(task), wait (launched), "
@@ -159,7 +159,7 @@ CONFIG = {
                  "Call returns exactly its task's result and only after it finished, running <= largest count requested so far, Count()==running, no starvation (a queued task runs whenever "
                  "nothing holds it back; stranded queue = violation), Wait pending while anything is queued/running and returning afterwards with Count()==0, leak check. "
                  "non-trivial = a Call with a smaller count than the previous Call arrived while >=1 task was queued; distinct = hash of the op trace."),
-        "jobs": [{"name": "workers", "test": "TestC14Workers", "checks": {"quick": 12000, "thorough": 400000}, "shards": {"quick": 8, "thorough": 16}, "env": {"VKIT_PROFILE": "C14"}}],
+        "jobs": [{"name": "workers", "test": "TestC14Workers", "checks": {"quick": 12000, "thorough": 1200000}, "shards": {"quick": 8, "thorough": 16}, "env": {"VKIT_PROFILE": "C14"}}],
     },
     "C18": {
         "rule": ("rapid stepper in a synctest bubble (virtual time) over ExponentialRetry/FatalError: one closure invoked 1-3 times on one context; operation = gated harness callback "
@@ -169,7 +169,7 @@ CONFIG = {
                  "wrapper at any depth, no call after cancellation, every gap a whole number of slots within [0, 2^min(k,31)-1], waits cut short by cancellation, nil value panics, leak check). "
                  "non-trivial = >=3 retries with a cancellation landing in a wait or call, or a nested fatal of depth >=2, or k>=31; distinct = hash of the case."),
         "assumptions": ["the back-off distribution is not tested (only support and granularity)"],
-        "jobs": [{"name": "retry", "test": "TestC18Retry", "checks": {"quick": 24000, "thorough": 600000}, "shards": {"quick": 8, "thorough": 16}, "env": {"VKIT_PROFILE": "C18"}}],
+        "jobs": [{"name": "retry", "test": "TestC18Retry", "checks": {"quick": 24000, "thorough": 2400000}, "shards": {"quick": 8, "thorough": 16}, "env": {"VKIT_PROFILE": "C18"}}],
     },
     "C11": {
         "rule": ("generated concurrent programs per type (Buffer+consumers incl. shared consumer/SetCleanerConfig/Range, Channel, Exclusive, Workers, Worker, Notifier, WaitCond, "
@@ -179,7 +179,7 @@ CONFIG = {
                  "(pairs of overlapping methods are listed in the class histogram); distinct = hash of the generated program."),
         "assumptions": ["dynamic happens-before race detection: only executed interleavings are judged", "x86-64 memory model as exercised by the Go race detector"],
         "jobs": [
-            {"name": "race_programs", "test": "TestC11RacePrograms", "race": True, "checks": {"quick": 2400, "thorough": 120000}, "shards": {"quick": 8, "thorough": 16}},
+            {"name": "race_programs", "test": "TestC11RacePrograms", "race": True, "checks": {"quick": 2400, "thorough": 500000}, "shards": {"quick": 8, "thorough": 16}},
             {"name": "race_pubsub", "test": "TestPubSubFree", "race": True, "checks": {"quick": 6000, "thorough": 400000}, "shards": {"quick": 4, "thorough": 16}, "env": {"VKIT_PROFILE": "C11"}},
             {"name": "race_caster", "test": "TestC08CasterFree", "race": True, "checks": {"quick": 4000, "thorough": 200000}, "shards": {"quick": 2, "thorough": 8}},
         ],
@@ -291,7 +291,7 @@ CONFIG = {
         "assumptions": ["reflect.Type.AssignableTo implements Go assignability", "CallArgs is always supplied (statement's domain)"],
         "jobs": [
             {"name": "callable", "test": "TestC19Callable",
-             "checks": {"quick": 40000, "thorough": 1600000},
+             "checks": {"quick": 40000, "thorough": 30000000},
              "shards": {"quick": 4, "thorough": 16}},
         ],
     },
